@@ -118,6 +118,40 @@ def pragma_state(inc, hs, bdir):
     return out
 
 
+def lang_facts(inc, hs, facts):
+    """A fact is only asserted in a language in which it holds when its header is included ALONE (the value comes from a C
+    probe; GNU C accepts things C++ does not). What is left can only fail because of the other headers of a configuration.
+    -> (facts per language, number dropped, {(language, header)} that front end cannot host for lack of a system header)"""
+    facts_l = {lang: {h: dict(facts[h]) for h in hs} for lang, cmd in LANGS}
+    dropped = 0
+    nohost = set()      # (language, header): needs a system header this front end has no library for - not a property of the header
+    for lang, cmd in LANGS:
+        for h in hs:
+            for _ in range(40):
+                text = tu_text((h,), facts_l[lang])
+                pp = subprocess.run(cmd + ['-fsyntax-only', '-w', '-I' + inc, '-'], input=text, stdout=subprocess.PIPE, stderr=subprocess.PIPE, text=True)
+                if pp.returncode == 0:
+                    break
+                if lang == 'c-msvc' and re.search(r"fatal error: '[^']+' file not found", pp.stderr) and not re.search(r"fatal error: 'avtp/", pp.stderr):
+                    nohost.add((lang, h))
+                    break
+                lines = text.splitlines()
+                bad = set()
+                for line in pp.stderr.splitlines():
+                    mm = re.search(r'<stdin>:(\d+)', line)
+                    if mm and 'error' in line and 'vsa_' in lines[int(mm.group(1)) - 1]:
+                        c = re.search(r'/\* (sizeof )?(\S+) from (\S+) \*/', lines[int(mm.group(1)) - 1])
+                        if c:
+                            bad.add(('T' if c.group(1) else 'N', c.group(2)))
+                bad = {k for k in bad if k in facts_l[lang][h]} or {k for k in facts_l[lang][h] if k[0] == 'T' and k[1].replace(' ', '#') in pp.stderr} 
+                if not bad:
+                    break          # the header itself does not compile alone in this language: reported below as 'single'
+                for k in bad:
+                    del facts_l[lang][h][k]
+                    dropped += 1
+    return facts_l, dropped, nohost
+
+
 def tu_text(hs, facts):
     out = ['#include <stddef.h>']
     for h in hs:
@@ -196,35 +230,7 @@ def run(prop, tier):
         macros, enums, types = names_of(inc, h)
         facts[h] = compile_probe(inc, h, macros + enums, types, b) or {}
         nfacts += len(facts[h])
-    # A fact is only asserted in a language in which it holds when its header is included ALONE (the value comes from a C
-    # probe; GNU C accepts things C++ does not). What is left can only fail because of the other headers of a configuration.
-    facts_l = {lang: {h: dict(facts[h]) for h in hs} for lang, cmd in LANGS}
-    dropped = 0
-    nohost = set()      # (language, header): needs a system header this front end has no library for - not a property of the header
-    for lang, cmd in LANGS:
-        for h in hs:
-            for _ in range(40):
-                text = tu_text((h,), facts_l[lang])
-                pp = subprocess.run(cmd + ['-fsyntax-only', '-w', '-I' + inc, '-'], input=text, stdout=subprocess.PIPE, stderr=subprocess.PIPE, text=True)
-                if pp.returncode == 0:
-                    break
-                if lang == 'c-msvc' and re.search(r"fatal error: '[^']+' file not found", pp.stderr) and not re.search(r"fatal error: 'avtp/", pp.stderr):
-                    nohost.add((lang, h))
-                    break
-                lines = text.splitlines()
-                bad = set()
-                for line in pp.stderr.splitlines():
-                    mm = re.search(r'<stdin>:(\d+)', line)
-                    if mm and 'error' in line and 'vsa_' in lines[int(mm.group(1)) - 1]:
-                        c = re.search(r'/\* (sizeof )?(\S+) from (\S+) \*/', lines[int(mm.group(1)) - 1])
-                        if c:
-                            bad.add(('T' if c.group(1) else 'N', c.group(2)))
-                bad = {k for k in bad if k in facts_l[lang][h]} or {k for k in facts_l[lang][h] if k[0] == 'T' and k[1].replace(' ', '#') in pp.stderr} 
-                if not bad:
-                    break          # the header itself does not compile alone in this language: reported below as 'single'
-                for k in bad:
-                    del facts_l[lang][h][k]
-                    dropped += 1
+    facts_l, dropped, nohost = lang_facts(inc, hs, facts)
     st = pragma_state(inc, hs, b)
     if not st[None]:
         core.die_infra('pragma-state probe does not build')
@@ -383,10 +389,11 @@ def replay(prop, case):
     for h in cfg:
         macros, enums, types = names_of(inc, h)
         facts[h] = compile_probe(inc, h, macros + enums, types, b) or {}
-    text = tu_text(cfg, facts)
+    facts_l, _, nohost = lang_facts(inc, cfg, facts)
     rc = 0
     for lang, cmd in LANGS:
-        p = subprocess.run(cmd + ['-fsyntax-only', '-w', '-I' + inc, '-'], input=text, stdout=subprocess.PIPE, stderr=subprocess.PIPE, text=True)
+        cfg_l = [h for h in cfg if (lang, h) not in nohost]
+        p = subprocess.run(cmd + ['-fsyntax-only', '-w', '-I' + inc, '-'], input=tu_text(cfg_l, facts_l[lang]), stdout=subprocess.PIPE, stderr=subprocess.PIPE, text=True)
         print('%s: rc=%d %s' % (lang, p.returncode, p.stderr.splitlines()[0] if p.stderr else ''))
         rc |= p.returncode != 0
     return 1 if rc else 0
